@@ -95,13 +95,13 @@ static C09: Check = Check {
     property: "C09",
     level: "fault_enumeration",
     rule: "per artefact type {PublicKey, SecretKey, Signature, BlindSignature, PoKSignature, ZKPoK, Commitment, BlindFactor} and ciphersuite, around an honest encoding: (part 0) store round trips across a node restart in every codec (octets, JSON, pk coordinates), extension by 1..=64 octets x 3 content classes, truncation to every length; (part 1) every single-bit flip; (part 2) every non-canonical / forbidden substitution in every point and scalar slot (scalar+r, +2r, =r, =2^256-1, =0, =r-1; identity, identity+sort flag, infinity flag with non-zero x, compression flag cleared, infinity flag on a point, non-subgroup point, off-curve x, x>=p, sort flag flipped); run index -> (suite, type, part): 48 consecutive runs enumerate everything; oracle: accepted => re-encoding equals the delivered octets, forbidden class => Err; a case = one delivered octet string that reached a decoder (wrong lengths for fixed-size array parameters are excluded by the type and not counted); the coordinate form x || y fed to the octet decoder (a foreign encoding of the same key), and forbidden coordinates (a curve point outside the subgroup, a point off the curve, infinity); the library's key store (KeyPair::write_keypair_to_file) on a path with each of four histories (nothing there, a longer older document, a shorter one, another key pair written just before), a crash of the role, and the reload of the file; JSON decoded through from_str / from_reader / from_value",
-    quick_runs: 48,
-    thorough_runs: 192,
+    quick_runs: 49,
+    thorough_runs: 196,
     run: scen_codec::run_c09,
     assumptions: &["decoders are pure functions of their octets; the simulator contributes the restart/reload observation and replay", "forbidden classes as listed by the property: wrong length, trailing bytes, scalar >= r, off-curve, wrong subgroup, identity for pk / A / Abar,Bbar,D, e = 0"],
     real: REAL,
     simulated: SIMULATED,
-    exhaustive_after: Some(48),
+    exhaustive_after: Some(49),
     probes: &[],
 };
 
